@@ -3618,7 +3618,7 @@ void ZSTDv06_findFrameSizeInfoLegacy(const void *src, size_t srcSize, size_t* cS
 {
     const BYTE* ip = (const BYTE*)src;
     size_t remainingSize = srcSize;
-    size_t nbBlocks = 0;
+    unsigned long long bound = 0;
     blockProperties_t blockProperties = { bt_compressed, 0 };
 
     /* Frame Header */
@@ -3657,11 +3657,12 @@ void ZSTDv06_findFrameSizeInfoLegacy(const void *src, size_t srcSize, size_t* cS
 
         ip += cBlockSize;
         remainingSize -= cBlockSize;
-        nbBlocks++;
+        /* an uncompressed block is copied whatever its size (up to the 19 bits of the size field) */
+        bound += ((blockProperties.blockType == bt_raw) && (cBlockSize > ZSTDv06_BLOCKSIZE_MAX)) ? cBlockSize : ZSTDv06_BLOCKSIZE_MAX;
     }
 
     *cSize = ip - (const BYTE*)src;
-    *dBound = nbBlocks * ZSTDv06_BLOCKSIZE_MAX;
+    *dBound = bound;
 }
 
 /*_******************************
